@@ -13,19 +13,19 @@ ASSUMPTIONS = ["responses are read as (message, status) tuples or None (=200), a
 
 def scenarios(tier):
     q = tier == "quick"
-    menu = [("API", "add", "a", "rA", False), ("API", "add", "b", "cIn", False), ("API", "add", None, "rSmall", False),
-            ("API", "add", "a", "cBig", True), ("API", "add", "c", "Foo", False), ("API", "add", "f", "rFine", False),
+    menu = [("API", "add", "id-a", "rA", False), ("API", "add", "id-b", "cIn", False), ("API", "add", None, "rSmall", False),
+            ("API", "add", "id-a", "cBig", True), ("API", "add", "c", "Foo", False), ("API", "add", "f", "rFine", False),
             ("API", "upd", "f", "cFine", False),
-            ("API", "upd", "a", "rBig", False), ("API", "upd", "a", "rSmall", False), ("API", "upd", "zz", "rA", False),
-            ("API", "upd", "a", "Foo", False), ("API", "upd", "b", "cBig", False), ("API", "upd", "a", "cTouch", False),
-            ("API", "upd", "a", "rBig", True),
-            ("API", "del", "a", None, False), ("API", "del", "zz", None, False), ("API", "del", "a", None, True),
+            ("API", "upd", "id-a", "rBig", False), ("API", "upd", "id-a", "rSmall", False), ("API", "upd", "zz", "rA", False),
+            ("API", "upd", "id-a", "Foo", False), ("API", "upd", "id-b", "cBig", False), ("API", "upd", "id-a", "cTouch", False),
+            ("API", "upd", "id-a", "rBig", True),
+            ("API", "del", "id-a", None, False), ("API", "del", "zz", None, False), ("API", "del", "id-a", None, True),
             ("GET",),
             ("EV", "PRINT_STARTED"), ("EV", "PRINT_DONE"), ("EV", "FILE_SELECTED"),
             ("SET", "clearRegionsAfterPrintFinishes", True), ("SET", "mayShrinkRegionsWhilePrinting", True),
             ("SET", "mayShrinkRegionsWhilePrinting", False)]
     if not q:
-        menu += [("API", "del", "b", None, False), ("API", "upd", None, "rA", False), ("EV", "PRINT_CANCELLED"),
+        menu += [("API", "del", "id-b", None, False), ("API", "upd", None, "rA", False), ("EV", "PRINT_CANCELLED"),
                  ("SET", "clearRegionsAfterPrintFinishes", False)]
     cfg = dict(prop="C13", monitors=("c13",), start=False, maxregions=2 if q else 3, maxfresh=1 if q else 2,
                key_depth=False)
